@@ -11,7 +11,6 @@ package main
 // backpressureErrorCode: the code sent for a partition rejected because of S3 health. gst is what the monitor
 // answered inside the call.
 //@ func (h *handler) backpressureErrorCode
-//@   requires h.s3Health != nil
 //@   ghost gst broker.S3HealthState = ""
 //@   at State#1 after set gst = ret0
 //@   ensures [C25.backpressure_code_is_error] result != 0
@@ -24,7 +23,13 @@ package main
 // backpressure code. Exploration is cut at the AppendBatch call (at ... stop): the code after it (append error,
 // flush, acknowledgement) is dominated by that call and is not part of these clauses.
 //@ func (h *handler) handleProduce
-//@   requires h.s3Health != nil
+//@   at principalFromContext#* havoc
+//@   at acquirePartitionLeases#* havoc
+//@   at allowTopic#* havoc
+//@   at recordAuthzDeniedWithPrincipal#* havoc
+//@   at etcdAvailable#* havoc
+//@   at getPartitionLog#* havoc
+//@   at NewPtrProduceResponse#* before stop
 //@   ghost gstate broker.S3HealthState = ""
 //@   ghost gcode int16 = 0
 //@   at State#1 after set gstate = ret0
@@ -39,14 +44,26 @@ package main
 //@   at append#7 before assert [C25.produce_no_ack_before_append] len(arg1) == 1 && arg1[0].ErrorCode != 0
 //@   at append#8 before assert [C25.produce_no_ack_before_append] len(arg1) == 1 && arg1[0].ErrorCode != 0
 
-// handleFetch: no PartitionLog.Read call is reachable unless the State() call of the same partition iteration
-// answered "healthy"; the gate's response carries the backpressure code. Cut at the Read call.
+// handleFetch: the partition loop asks the monitor first; only the answer "healthy" lets the iteration go on to
+// getPartitionLog (SMT-proved assertion at that call); every PartitionLog.Read call is dominated by that
+// getPartitionLog call (static CFG clause), so no Read is reachable in an iteration whose State() answer was
+// "degraded" or "unavailable". The gate's own response carries the backpressure code of the same partition.
+// Exploration is cut at the getPartitionLog call: the code between it and Read (wait for data, watermark,
+// offset checks) is covered by the dominance clause, not explored.
 //@ func (h *handler) handleFetch
-//@   requires h.s3Health != nil
+//@   at principalFromContext#* havoc
+//@   at allowTopic#* havoc
+//@   at recordAuthzDeniedWithPrincipal#* havoc
 //@   ghost gstate broker.S3HealthState = ""
 //@   ghost gcode int16 = 0
 //@   at State#1 after set gstate = ret0
 //@   at backpressureErrorCode#1 after set gcode = ret0
-//@   at Read#* before assert [C25.fetch_read_only_when_healthy] gstate == "healthy"
-//@   at Read#* before stop
+//@   at getPartitionLog#1 before assert [C25.fetch_proceeds_only_when_healthy] gstate == "healthy"
+//@   at getPartitionLog#1 before stop
+//@   dominated [C25.fetch_read_after_gate] Read#* by getPartitionLog#1
 //@   at append#5 before assert [C25.fetch_rejects_unhealthy_with_backpressure_code] (gstate == "degraded" || gstate == "unavailable") && len(arg1) == 1 && arg1[0].ErrorCode == gcode && arg1[0].ErrorCode != 0 && arg1[0].Partition == part.Partition
+//@   at NewPtrFetchResponse#* before stop
+
+// the deferred latency metric of handleProduce is outside these clauses
+//@ func (h *handler) handleProduce$1
+//@   at recordProduceLatency#* havoc
